@@ -41,13 +41,22 @@ class Vec:
     def __init__(self, tag="v"):
         self.tag = tag
         self._norm = None
+        self.ver = 0            # bumped by in-place updates (step += soc_step)
+        self.src = None         # provenance of a sum / difference: the operand objects and their versions when it was formed
 
     def _mk(self, o=None):
-        return Vec(self.tag)
+        v = Vec(self.tag)
+        v.src = (self, getattr(self, "ver", 0), o, getattr(o, "ver", 0))
+        return v
     __add__ = __radd__ = __sub__ = __rsub__ = _mk
+
+    def current(self):
+        """is this sum still the sum of its operands as they are now?"""
+        return self.src is not None and self.src[0].ver == self.src[1] and getattr(self.src[2], "ver", 0) == self.src[3]
 
     def __iadd__(self, o):
         self._norm = None
+        self.ver += 1
         return self
 
     def __getitem__(self, k):
@@ -466,6 +475,9 @@ class ModelsStub:
             raise np.linalg.LinAlgError
         if getattr(self, "fw", None) is not None:
             self.fw._point_replaced(fun_val, cub_val, ceq_val)
+        chk = getattr(self, "check_point", None)
+        if chk is not None:
+            chk(x_new, fun_val)
         return SB(z3.Bool(self.c.fresh_name("ill_conditioned")))
 
     def fun_grad(self, x): return Vec("grad")
@@ -542,7 +554,7 @@ def minimize_shadow():
 
 class MinimizeUnit(Unit):
     name = "main.minimize"
-    props = ("C05", "C07", "C08", "C09", "C18", "C20", "C03", "C06")
+    props = ("C05", "C07", "C08", "C09", "C18", "C20", "C03", "C06", "C12")
     fmodel = "ORDER"
     functions = [("cobyqa.main", "minimize")]
     parallel = True
@@ -620,6 +632,7 @@ class MinimizeUnit(Unit):
             fw = FWStub(c, pb, o)
             c.assume(z3.And(fw._res.r == rb.r, fw._rad.r == rb.r))
             state["fw"] = fw
+            fw.models.check_point = lambda x_new, fun_val: check_point(x_new, fun_val)
             return fw
 
         def ev(pb_, fw, step, options):
@@ -629,6 +642,7 @@ class MinimizeUnit(Unit):
             pb.nev = pb.nev + 1
             pb.last_penalty = fw.penalty
             pb.trigger = None
+            state["last_eval"] = (fw.x_best, fw.x_best.ver, step, step.ver)       # the point evaluated is x_best + step as they are now
             k = c.choose("_eval", 4, ["ok", "target", "feasible", "callback"])
             if k == 1:
                 pb.trigger, pb.trigger_at = "target", pb.nev
@@ -641,7 +655,9 @@ class MinimizeUnit(Unit):
                 c.assume(pb.has_callback.t)
                 pb.trigger, pb.trigger_at = "callback", pb.nev
                 raise CallbackSuccess
-            return SF.fresh("fun_val", finite=True), Vec("cub"), Vec("ceq")
+            f_ = SF.fresh("fun_val", finite=True)
+            state["values_of"] = (f_, state["last_eval"])
+            return f_, Vec("cub"), Vec("ceq")
 
         def build(pb_, penalty, success, status, n_iter, options):
             self.post(c, pb, state, penalty, success, status, n_iter, options)
@@ -655,6 +671,18 @@ class MinimizeUnit(Unit):
             "Problem": mk_problem, "_set_default_options": set_opts, "_set_default_constants": set_consts,
             "TrustRegion": TR, "_eval": ev, "_build_result": build,
         })
+        def check_point(x_new, fun_val):
+            # C12: the values recorded for the new interpolation point were measured at that very point: x_new is x_best + step for the
+            # x_best and the step (after any in-place correction) that the evaluation returning fun_val was made at
+            ok = False
+            vo = state.get("values_of")
+            if vo is not None and fun_val is vo[0] and isinstance(x_new, Vec) and x_new.src is not None:
+                xb, xbv, st, stv = vo[1]
+                a, av, b, bv = x_new.src
+                ok = (a is xb and av == xbv and b is st and bv == stv) or (b is xb and bv == xbv and a is st and av == stv)
+            c.oblige("C12.minimize.recorded_values_were_measured_at_the_recorded_point", z3.BoolVal(bool(ok)), props=["C12", "C02"],
+                     note="update_interpolation receives a point that is not x_best + step as evaluated (e.g. formed before the step was "
+                          "corrected in place)")
         # the progress-printing blocks (disp=True) are explored too: they must not evaluate anything (C06)
         verbose = bool(c.choose("disp", 2, ["off", "on"]))
         printed = []
